@@ -570,6 +570,12 @@ func c18RandomFormat(rng *rand.Rand) string {
 	if rng.Intn(3) > 0 {
 		return c18Formats[rng.Intn(3)]
 	}
+	if rng.Intn(6) == 0 {
+		// long formats: the text is the format applied to the id at every length (limits of one-byte
+		// and two-byte length fields are where a cap would sit)
+		n := []int{250, 253, 254, 255, 256, 257, 300, 1000}[rng.Intn(8)]
+		return strings.Repeat("n", n) + "%d"
+	}
 	if rng.Intn(2) == 0 {
 		return c18Formats[rng.Intn(len(c18Formats))]
 	}
